@@ -195,7 +195,7 @@ func sanitizeFile(s string) string {
 }
 
 // SolveAll discharges obligations in parallel.
-func SolveAll(obls []*Obligation, dir string, timeout time.Duration, par int) map[*Obligation]SolveResult {
+func SolveAll(obls []*Obligation, dir string, timeout time.Duration, par int, withCex bool) map[*Obligation]SolveResult {
 	out := map[*Obligation]SolveResult{}
 	var mu sync.Mutex
 	sem := make(chan struct{}, par)
@@ -207,22 +207,31 @@ func SolveAll(obls []*Obligation, dir string, timeout time.Duration, par int) ma
 			defer wg.Done()
 			defer func() { <-sem }()
 			var r SolveResult
+			// counterexample search (retry rounds only, in parallel with the query):
+			// without the quantified background axioms the solvers can return a
+			// (candidate) model, which replay then validates
+			var r2 SolveResult
+			cexDone := make(chan struct{})
+			if !o.Cover && withCex {
+				go func() {
+					o2 := *o
+					o2.NoAxioms = true
+					r2 = Solve(o2.Script(true), dir, o.Name+".cex", timeout, nil)
+					close(cexDone)
+				}()
+			} else {
+				close(cexDone)
+			}
 			if len(o.Cases) > 0 && !o.Cover {
 				r = solveCases(o, dir, timeout)
 			} else {
 				r = Solve(o.Script(true), dir, o.Name, timeout, nil)
 			}
-			if !o.Cover && r.Status != "unsat" && r.Status != "sat" && r.Status != "error" {
-				// counterexample search: without the quantified background axioms the
-				// solvers can return a (candidate) model, which replay then validates
-				o2 := *o
-				o2.NoAxioms = true
-				r2 := Solve(o2.Script(true), dir, o.Name+".cex", timeout, nil)
-				if r2.Status == "sat" {
-					r.Model = r2.Model
-					r.CandidateModel = true
-					r.Backend = r2.Backend
-				}
+			<-cexDone
+			if !o.Cover && r.Status != "unsat" && r.Status != "sat" && r.Status != "error" && r2.Status == "sat" {
+				r.Model = r2.Model
+				r.CandidateModel = true
+				r.Backend = r2.Backend
 			}
 			mu.Lock()
 			out[o] = r
